@@ -16,12 +16,14 @@ from .common import Check
 RULE = ("deterministic boundary corpus (every tie pattern of start/end instants of two events on a 0..2 s "
         "grid, second bucket holding the same instants, limit-1 read + replace_last, delete-newest + insert, "
         "bulk upsert, bucket delete + re-create; bulk calls with lists of 0, 1, 2, 3 elements in every mix of "
-        "upserts and plain inserts; every read before and after every kind of write, twice in a row), each on BOTH layers (calls on the storage object; calls through the public "
+        "upserts and plain inserts; every read before and after every kind of write, twice in a row; the caller changing "
+        "in place - data dict, timestamp, duration, id - the object it passed to each kind of write / got from each kind "
+        "of read), each on BOTH layers (calls on the storage object; calls through the public "
         "Datastore / Bucket API), then seeded random well-formed histories of 1-40 ops over 1-3 "
         "buckets with timestamps from a pool of 4-6 values, alternating between the two layers, the event handed "
         "to replace / replace_last carrying a live id of its own in half of the calls, a quarter of the writes followed "
         "straight by a read of that bucket (count / by id / limit 1 / metadata), one history in five passing "
-        "Event objects a second time; every history is run on memory, sqlite (temp file) "
+        "Event objects a second time and changing held objects in place between calls; every history is run on memory, sqlite (temp file) "
         "and peewee (temp file); non-trivial = a run in which a replace/replace_last/delete/upsert succeeded on "
         "a bucket holding two or more events")
 
@@ -76,6 +78,14 @@ def step_oracle(op, res, before_views, after_views, univ, prev):
     after = {b: contents(v) for b, v in zip(univ, after_views)}
     mb = {b: meta_of(v) for b, v in zip(univ, before_views)}
     ma = {b: meta_of(v) for b, v in zip(univ, after_views)}
+    if code == 13:
+        # the caller changed an Event object of its own (one it passed to / got from the store): that is no
+        # operation of the history, the reference list model does not move
+        for b in univ:
+            if before[b] != after[b] or mb[b] != ma[b]:
+                return (f"no operation was issued, the caller only changed .{sh.TOUCH_FIELDS[op[1]]} of an Event object it "
+                        f"had passed to / got from the store, and bucket {b} changed: {before[b]} -> {after[b]}")
+        return None
     if not precondition(op, before):
         return "skip"
     if res[0] != 0:
@@ -237,8 +247,10 @@ def main(argv=None):
     # layers (storage object; public API = Datastore / Bucket), the random histories alternate
     n_random = 900 if ck.tier == "quick" else 45000
     hists = [(sym, univ, None, layer) for layer in sh.LAYERS
-             for sym, univ in sh.boundary_histories() + sh.bulk_boundary_histories() + sh.read_write_read_histories()]
+             for sym, univ in sh.boundary_histories() + sh.bulk_boundary_histories() + sh.read_write_read_histories()
+             + sh.touch_histories()]
     for i in range(n_random):
+        # reuse: Event objects passed a second time, and changed in place by the caller between calls
         sym, univ = sh.gen_history(ck.rng, malformed=False, reuse=0.3 if i % 5 == 4 else 0.0)
         hists.append((sym, univ, None, sh.LAYERS[i % 2]))
     results = sh.run_impl_batch(hists)
